@@ -99,6 +99,18 @@ class DocGen:
             leaf["$ref"] = "#" + target
             if leaf_title:
                 leaf["title"] = leaf_title
+        # chains: a reference that bears an anchor of its own, and a further reference (before or after it) to that anchor
+        refd = [n for n in nodes if "$ref" in n and n["$ref"] != "#NOWHERE" and "$anchor" not in n]
+        spare = [n for n in leaves[max(1, len(leaves) // 3):] if "$ref" not in n]
+        if refd and spare and rng.random() < 0.5:
+            link = rng.choice(refd)
+            cname = f"CHAIN{len(self.anchors)}"
+            link["$anchor"] = cname
+            self.anchors.append(cname)
+            for leaf in spare[: rng.choice([1, 1, 2])]:
+                leaf.clear()
+                leaf["$ref"] = "#" + cname
+            self.features.add("ref-chain")
         if rng.random() < self.title_clash and self.anchors:
             # an un-anchored node whose *title* equals another node's anchor
             cands = [n for n in nodes if "$anchor" not in n and "$ref" not in n and n is not doc]
